@@ -169,7 +169,12 @@ class OptSim(Sim):
                 return {"k": "opt_bad", "how": bad, "params": ids}
             k = rng.randint(1, len(ids))
             kind = rng.choice(["SGD", "SGD", "Adam", "AdamW"])
-            return {"k": "opt_new", "oid": len(st.opts), "kind": kind, "params": sorted(rng.sample(ids, k)), "hp": self._gen_hp(rng, kind)}
+            hp = self._gen_hp(rng, kind)
+            if st.root:
+                # with tied storage and weight decay the result depends on the ORDER in which the entries of the list are updated
+                # (lr^2 terms), which the cited rules do not fix: tied runs use weight_decay = 0, where the updates are additive
+                hp["weight_decay"] = 0
+            return {"k": "opt_new", "oid": len(st.opts), "kind": kind, "params": sorted(rng.sample(ids, k)), "hp": hp}
         if st.module is None and rng.random() < 0.3:
             ids = [i for i in st.P if st.pmeta[i]["wrap"]]
             if ids:
@@ -522,6 +527,8 @@ class OptSim(Sim):
             p = st.P[i]
             if p.data.dtype != meta[i][0] or p.data.shape != meta[i][1]:
                 st.fail("C08.dtype_shape_changed", f"step() changed parameter {i} from {meta[i]} to {(p.data.dtype, p.data.shape)}", param=i)
+        if o["hp"]["weight_decay"] and any(len([j for j in self._group(st, i) if j in moving]) >= 2 for i in ids):
+            judge = False            # (order-dependent: see opt_new) - can only arise in a replay edited by hand or by the minimiser
         if not judge:
             o["desync"] = True
             return
